@@ -505,7 +505,18 @@ fn run_problem_body(cl_in: &Client, jar_in: &mut Jar, c: &WebCase, st: &mut Stat
         return Err("anonymous add did not log in a temporary user".into());
     }
     let parse_task = json!({"type": "Parse"});
-    let v = poll_slot(&cl, &mut jar, "p", "parse_only", &parse_task)?;
+    let v = match poll_slot(&cl, &mut jar, "p", "parse_only", &parse_task) {
+        Ok(v) => v,
+        Err(e) if code.contains('\0') && e.contains("the result was lost / never stored") => {
+            // K8 probe: exactly the known signature (the parse task ended, nothing was stored) or correct behaviour
+            st.label("nul-in-label");
+            return known_or_fail("K8-nul-in-label-result-never-stored", format!("well-formed code {code:?} (a statement name contains a NUL character): {e}"));
+        }
+        Err(e) => return Err(e),
+    };
+    if code.contains('\0') {
+        st.label("nul-in-label");
+    }
     let running_parse = |v: &Value| v["running_tasks"].as_array().map(|a| a.contains(&parse_task)).unwrap_or(false);
     let slot_type = v["acs_per_strategy"]["parse_only"]["type"].as_str().unwrap_or("?").to_string();
     let mut outcome = Outcome::Ok;
@@ -692,7 +703,7 @@ pub fn c16_check_entry(c: &WebCase, st: &mut Stats) -> CheckResult {
 /// only well-formed, mostly wide ADFs (the storage round trip of many statements), few requests
 pub fn web_case_storage() -> BoxedStrategy<WebCase> {
     web_case()
-        .prop_filter("well-formed", |c| c.kind == CodeKind::WellFormed)
+        .prop_filter("well-formed", |c| c.kind == CodeKind::WellFormed && !c.adf.labels.iter().any(|l| l.contains('\0')))
         .boxed()
 }
 
@@ -747,21 +758,22 @@ fn web_case() -> BoxedStrategy<WebCase> {
             1..9,
         ),
     )
-        .prop_map(|((acs, labels, layout), kind, hybrid, reqs)| WebCase {
-            adf: AdfCase { acs, labels, layout },
-            kind,
-            hybrid,
-            reqs,
-            readd: None,
-            foreign_task: None,
-        })
+        .prop_map(|((acs, labels, layout), kind, hybrid, reqs)| WebCase { adf: AdfCase { acs, labels, layout }, kind, hybrid, reqs, readd: None, foreign_task: None })
         .boxed()
 }
 
 /// a quarter of the cases delete the problem afterwards and add a second, different code under the same name
 fn web_case_with_readd() -> BoxedStrategy<WebCase> {
-    (web_case(), proptest::option::weighted(0.25, web_case()))
-        .prop_map(|(mut a, b)| {
+    (web_case(), proptest::option::weighted(0.25, web_case()), 0u8..80)
+        .prop_map(|(mut a, b, nul)| {
+            // about one well-formed problem in a hundred has a statement whose (quoted) name contains a NUL character
+            // (open finding K8: the result of such a problem is never stored)
+            if nul == 0 && a.kind == CodeKind::WellFormed && !a.adf.labels.iter().any(|l| gen::is_bd_hostile(l)) {
+                let l = &mut a.adf.labels[0];
+                let at = l.char_indices().nth(1).map(|(i, _)| i).unwrap_or(l.len());
+                l.insert(at, '\0');
+                return a;
+            }
             a.readd = b.map(Box::new);
             a
         })
